@@ -3,6 +3,7 @@
 # and records how it was detected in seeded/<id>/detection.json and seeded/RESULTS.md.
 import json, os, subprocess, sys, glob
 V = os.path.dirname(os.path.abspath(__file__))
+REPO = os.environ.get("VERIF_REPO", "/repo")
 rows = []
 only = sys.argv[1:]
 for d in sorted(glob.glob(os.path.join(V, "seeded", "C*_*"))):
@@ -10,7 +11,7 @@ for d in sorted(glob.glob(os.path.join(V, "seeded", "C*_*"))):
     if only and sid not in only: continue
     meta = json.load(open(os.path.join(d, "meta.json")))
     prop = meta["breaks_property"]
-    r = subprocess.run(["git", "-C", "/repo", "apply", os.path.join(d, "patch.diff")], capture_output=True, text=True)
+    r = subprocess.run(["git", "-C", REPO, "apply", os.path.join(d, "patch.diff")], capture_output=True, text=True)
     if r.returncode != 0:
         rows.append((sid, prop, "patch does not apply", "")); continue
     try:
@@ -35,7 +36,7 @@ for d in sorted(glob.glob(os.path.join(V, "seeded", "C*_*"))):
         rows.append((sid, prop, how, detail))
         json.dump({"id": sid, "property": prop, "exit": c.returncode, "how": how, "detail": detail, "output": out[-1500:]}, open(os.path.join(d, "detection.json"), "w"), indent=1)
     finally:
-        subprocess.run(["git", "-C", "/repo", "checkout", "--", "."])
+        subprocess.run(["git", "-C", REPO, "checkout", "--", "."])
     print(sid, prop, how, "|", detail[:120], flush=True)
 if not only:
     with open(os.path.join(V, "seeded", "RESULTS.md"), "w") as fh:
